@@ -11,7 +11,7 @@ if log and os.path.exists(log):
         if m:
             det[m.group(3)] = (m.group(1), m.group(4).strip())
 blind = {}
-for bt in [os.path.join(root, 'seeded', 'round2_blind.tsv'), os.path.join(root, 'seeded', 'round3_blind.tsv'), os.path.join(root, 'seeded', 'round4_blind.tsv'), os.path.join(root, 'seeded', 'round5_blind.tsv'), os.path.join(root, 'seeded', 'round6_blind.tsv')]:
+for bt in [os.path.join(root, 'seeded', 'round2_blind.tsv'), os.path.join(root, 'seeded', 'round3_blind.tsv'), os.path.join(root, 'seeded', 'round4_blind.tsv'), os.path.join(root, 'seeded', 'round5_blind.tsv'), os.path.join(root, 'seeded', 'round6_blind.tsv'), os.path.join(root, 'seeded', 'round7_blind.tsv')]:
   if os.path.exists(bt):
     for line in open(bt):
           if line.startswith('#') or line.startswith('id\t') or not line.strip():
